@@ -266,7 +266,7 @@ def _bmoc_family(pid, mode):
         (3, 1, 1, 1, 1, Q), (3, 1, 1, 2, 2, Q), (3, 1, 1, 2, 1, Q), (3, 1, 0, 1, 1, T), (3, 1, 1, 1, 2, T),
         (3, 1, 2, 1, 1, T, 3600, 40), (3, 2, 1, 1, 1, T, 3600, 40),
         # two cells of depth <= 1 against one base cell (a coarse cell overlapping several deeper cells), cheaper than the (2,1) shapes at equal depth_max
-        (3, 2, 1, 1, 0, T, 2400, 16), (3, 1, 2, 0, 1, T, 2400, 16), (2, 2, 1, 1, 0, T, 2400, 16),
+        (3, 2, 1, 1, 0, T, 2400, 16), (3, 1, 2, 0, 1, X, 2400, 40), (2, 2, 1, 1, 0, X, 2400, 40),   # the last two ran out of memory at 16 GB
     ]
     for sh in shapes:
         op, na, nb, dma, dmb, tiers = sh[:6]
@@ -354,7 +354,8 @@ for (idn, nm) in ((1, 'xor_self'),):
                   unwindset=_bmoc_unwindset(1, 1, 1, 3), stubs=_bmoc_stubs('verif_c07') + _bmoc_cut_pack('verif_c07'),
                   inputs=_ops_inputs('a'), replay='bmoc_identity', replay_const={'id': idn, 'na': 1, 'a_dm': 1}, covers=['operands exist'],
                   domain='a xor a on every plain MOC of exactly 1 entry, depth_max 1'))
-_c07.append(H('c07_identity_not_not_1_dm0', 'k_bmoc_identity(0, 1, 0);', tiers=T, timeout=2400, mem_gb=8, unwind=3,
+_c07.append(H('c07_identity_not_not_1_dm0', 'k_bmoc_identity(0, 1, 0);', tiers=X,   # out of memory at 8 GB
+                  timeout=2400, mem_gb=8, unwind=3,
               unwindset=dict(_bmoc_unwindset(12, 0, 0, 0), **{'nested::bmoc::BMOC::equals#0': 14}), stubs=_bmoc_stubs('verif_c07'),
               inputs=_ops_inputs('a'), replay='bmoc_identity', replay_const={'id': 0, 'na': 1, 'a_dm': 0}, covers=['operands exist'],
               domain='not(not(a)) on every plain MOC of exactly 1 base cell, depth_max 0'))
